@@ -98,6 +98,8 @@ def setup_state(run, fs, fdef):
     if selfv is not None and fs.kind != 'init' and fs.entry_inv:
         for cname, f in selfv.spec().all_invariants().items():
             run.assume(_conj(f(ObjView(selfv))))
+        if selfv.spec().opaque_inv:
+            run.assume(spec.INV(selfv.cls, selfv.t))
     cpre = Ctx(old=ObjView(run.old) if run.old is not None else None, new=ObjView(selfv) if selfv is not None else None,
                a=NS(run.args0), run=run, lg=run.lg)
     for cname, f in fs.requires.items():
@@ -164,6 +166,8 @@ def normal_exit(run, fs, res, rep):
                 run.oblige(f"{key}/field_type/{f}", False, kind='field_type', clause=f, function=key,
                            detail=f"{f}: {cur} is not a {t}: {ex}")
                 return
+    if fs.ret is not None and isinstance(res, SV) and not fs.returns_self:
+        res = symex.coerce(run, res, fs.ret)
     cexit = Ctx(old=ObjView(run.old) if run.old is not None else None,
                 new=ObjView(selfv) if selfv is not None else None,
                 a=NS(run.args0), res=view(res) if isinstance(res, SV) else res, run=run, lg=run.lg,
@@ -262,4 +266,6 @@ def fresh_object(run, clsname, base, assume_inv=True):
     if assume_inv:
         for cname, f in o.spec().all_invariants().items():
             run.assume(_conj(f(ObjView(o))))
+        if o.spec().opaque_inv:
+            run.assume(spec.INV(o.cls, o.t))
     return o
